@@ -252,7 +252,7 @@ class EArr(numpy.ndarray):
         if not isinstance(key, tuple):
             key = (key,)
         if any(k is None for k in key):
-            raise Unsupported("newaxis indexing")
+            raise Unsupported("newaxis indexing beyond a[None, :] / a[:, None] of a 1-d array")
         n_ell = sum(1 for k in key if k is Ellipsis)
         if n_ell > 1:
             raise IndexError("multiple ellipsis")
@@ -266,9 +266,25 @@ class EArr(numpy.ndarray):
         return key
 
     def __getitem__(self, key):
-        if isinstance(key, EArr) and key._es == z3.BoolSort() or \
-                (isinstance(key, numpy.ndarray) and not isinstance(key, EArr) and key.dtype == bool):
-            raise Unsupported("boolean mask indexing (use a contract)")
+        if isinstance(key, numpy.ndarray) and not isinstance(key, EArr) and key.dtype == bool:
+            raise Unsupported("boolean mask indexing with a concrete mask")
+        if isinstance(key, EArr) and key._es == z3.BoolSort():
+            # a[mask] along axis 0 with a 1-d mask: a[flatnonzero(mask)] (positions: ghost enumeration shared by every use
+            # of the same mask value, see npmodel.mask_positions)
+            if key.ndim != 1:
+                raise Unsupported("boolean mask indexing with a mask of rank %d" % key.ndim)
+            same = dims_equal(key._shape[0], self._shape[0])
+            if not (same is True or (same is not False and same)):
+                raise IndexError("boolean index did not match indexed array along axis 0")
+            from . import npmodel
+            xo = npmodel.mask_positions(key)
+            return self[xo]
+        if self.ndim == 1 and isinstance(key, tuple) and len(key) == 2 and ((key[0] is None and key[1] == slice(None)) or
+                                                                            (key[1] is None and key[0] == slice(None))):
+            base, n = self._at, self._shape[0]          # a[None, :] / a[:, None]: a (1,n) / (n,1) read-only copy
+            if key[0] is None:
+                return EArr((1, n), lambda i, j: base(j), self._dt, mutable=False)
+            return EArr((n, 1), lambda i, j: base(i), self._dt, mutable=False)
         key = self._expand_key(key)
         if self.ndim == 1 and isinstance(key[0], slice) and key[0].start is None and key[0].stop is None and key[0].step == -1:
             base, tn = self._at, _t(self._shape[0])      # a[::-1] (read as a reversed copy; writes through are not modelled)
@@ -322,6 +338,7 @@ class EArr(numpy.ndarray):
                 return val_fn(*vi)
             base._write(bpred, bval)
         v._writer = writer
+        v._view_of = (base, dict(fixed), dict(offs), list(dimmap))
         return v
 
     def _fancy_get(self, key, is_arr):
@@ -356,6 +373,7 @@ class EArr(numpy.ndarray):
                 plan.append(("slice", d))
         n_ai = _t(self._shape[ai])
         ixat = ix._at
+        nonneg = bool(getattr(ix, "_nonneg", False))     # index vectors known to hold positions (flatnonzero): no wrap-around term
 
         def at(*i):
             b = [None] * nd
@@ -368,7 +386,7 @@ class EArr(numpy.ndarray):
                 else:
                     b[v] = offs[v] + i[r]
             raw = ixat(*ai_idx)
-            b[ai] = z3.If(raw < 0, raw + n_ai, raw)
+            b[ai] = raw if nonneg else z3.If(raw < 0, raw + n_ai, raw)
             return base_at(*b)
         return EArr(tuple(shp), at, self._dt)
 
@@ -415,6 +433,9 @@ class EArr(numpy.ndarray):
                 fixed[d] = self._norm_index(k, n)
         region_shape = [wrap(lens[d]) for d in dimmap]
         vfn = _value_fn(value, region_shape)
+        if self.ndim == 1 and not dimmap and self._writer is None:
+            # a[ix] = v on a 1-d array: remembered so that ghost sums of the new content can be related to the old ones
+            self._upd = (self._at, fixed[0], _t(value.item() if isinstance(value, numpy.ndarray) else value))
 
         def pred(*b):
             cs = [b[d] == fixed[d] for d in fixed]
@@ -426,7 +447,19 @@ class EArr(numpy.ndarray):
         self._write(pred, val)
 
     def _fancy_set(self, key, value):
-        raise Unsupported("fancy assignment (use a contract)")
+        if self.ndim != 1 or len(key) != 1 or not isinstance(key[0], EArr) or key[0].ndim != 1 or key[0]._es != z3.IntSort():
+            raise Unsupported("fancy assignment other than a[index_vector] = scalar on a 1-d array")
+        if isinstance(value, (EArr, numpy.ndarray)) and getattr(value, "ndim", 0) > 0:
+            raise Unsupported("fancy assignment of an array value")
+        tv = _t(value)
+        ix, m, n = key[0]._at, _t(key[0]._shape[0]), _t(self._shape[0])
+        q = z3.Int("q_fs")
+        self._write(lambda b: z3.Exists([q], z3.And(0 <= q, q < m, z3.If(ix(q) < 0, ix(q) + n, ix(q)) == b)), lambda b: tv)
+
+    def flatten(self, order="C"):
+        if self.ndim == 1:
+            return self.copy()
+        raise Unsupported("flatten of a rank-%d symbolic array" % self.ndim)
 
     # ---- elementwise arithmetic
     def _ew(self, other, f, out_dtype=None, swap=False):
@@ -479,6 +512,10 @@ class EArr(numpy.ndarray):
         if impl is None:
             raise Unsupported("numpy.%s on element-level symbolic array" % func.__name__)
         return impl(*args, **kwargs)
+
+    def argmin(self, axis=None, **kw):
+        from . import npmodel
+        return npmodel.el_argmin(self, axis=axis)
 
     def argsort(self, axis=-1, kind=None, **kw):
         from . import npmodel
